@@ -413,7 +413,7 @@ def wrapper_rules(m, run, method, slot):
         params = params_of(fi.node)[1:]
         for li, (lst, kwprefix) in enumerate(zip(c.args[1:3], ('param', 'num'))):
             if not isinstance(lst, ast.List) or len(lst.elts) != pdim:
-                run.ob('WR1.wrapper-lists', '%s :: %s list' % (fi.key, kwprefix), False, 'argument `%s` is not a %d-element list literal' % (norm(lst), pdim), site(fi, c))
+                run.note('WR1.wrapper-lists', '%s :: %s list' % (fi.key, kwprefix), 'argument `%s` is not spelled as a %d-element list literal: decided by WR2 only' % (norm(lst)[:50], pdim))
                 continue
             for pos, el in enumerate(lst.elts):
                 if li == 0:
@@ -453,7 +453,10 @@ def wrapper_rules(m, run, method, slot):
         # check_num forwarded
         kwv = next((k.value for k in c.keywords if k.arg == 'check_num'), None)
         run.ob('WR1.wrapper-delegates', fi.key + ' :: check_num', kwv is not None, 'check_num forwarded as `%s`' % norm(kwv), site(fi, c))
-    run.floor('WR1.wrapper-lists', 12, '(1+2+3) x 2 slots')
+    # spelling-independent decision (the lists may be built by comprehension, zip, helper ...): what the slot actually receives
+    from . import skel_drivers as _sd
+    _sd.wr2(m, run, method, slot.lstrip('_'))
+    run.floor('WR2.wrapper-hands-on-the-request', 9, 'curve 2, surface 5, volume 7 request scenarios')
 
 
 def helper_alias_rules(m, run, key, rows_param='ctrlpts', pu1=True):
